@@ -130,14 +130,23 @@ def run_multi(b: Batch, kind, r, led):
     c.call("schedule", "p2")
     if r.random() < 0.5:
         c.call("schedule", "p1")
-    c.call("start")
+    concurrent_start = r.random() < 0.4
+    if not concurrent_start:
+        c.call("start")
     seqs = [[r.choice(ALPHA[:7] + [("touch", "p2"), ("touch", "p2"), ("stop", None)]) for _ in range(r.randint(2, 5))] for _ in range(r.randint(2, 3))]
+    if concurrent_start:
+        # start() itself races the other threads' calls (stop(), schedule(), unschedule() ...)
+        seqs[0].insert(0, ("start", None))
+        if r.random() < 0.6:
+            seqs[1].insert(0, ("stop", None))
     hung = []
 
     def worker(seq):
         for op, arg in seq:
             if c.hung:
                 return
+            if op == "start" and (c.started or c.stopped):
+                continue
             if op == "touch":
                 try:
                     c.call(op, arg)
@@ -157,6 +166,39 @@ def run_multi(b: Batch, kind, r, led):
     b.count("multi_thread_cases")
 
 
+def run_unmount(b: Batch, led, variant):
+    """The watched root is a mounted tmpfs that is unmounted while the observer runs (IN_UNMOUNT + IN_IGNORED, no IN_DELETE_SELF):
+    the reader ends by itself; stop()+join() must still return and end every thread."""
+    import os
+    import subprocess
+
+    c = apireal.Case("inotify", led)
+    mnt = c.paths["p2"]
+    if subprocess.run(["mount", "-t", "tmpfs", "tmpfs", mnt], capture_output=True).returncode != 0:
+        b.count("unmount_cases_skipped_no_mount_permission")
+        c.finish()
+        return
+    try:
+        os.mkdir(os.path.join(mnt, "sub"))
+        c.call("schedule", "p2")
+        c.call("start")
+        c.call("touch", "p2")
+        c.call("sleep", 0.05)
+    finally:
+        r = subprocess.run(["umount", mnt], capture_output=True)
+        if r.returncode != 0:
+            subprocess.run(["umount", "-l", mnt], capture_output=True)
+    c.call("sleep", 0.1)
+    if variant == 1:
+        c.call("unschedule", "p2")
+    elif variant == 2:
+        c.call("schedule", "p1")
+    out = c.finish()
+    judge(b, out, c.log, {"kind": "inotify", "unmount": variant}, {"kind": "unmount1", "variant": variant})
+    b.count("unmount_cases")
+    b.nontrivial(["unmount", variant, len(c.log)])
+
+
 PARTNERS = ["stop", "unschedule", "rmroot", "touch"]
 
 
@@ -172,7 +214,9 @@ def plan(tier, seed, jobs):
             specs.append({"kind": "multi", "n": 120, "seed": seed, "j": j, "budget_s": 45})
         for j in range(4):
             specs.append({"kind": "holds", "emitter": "inotify", "seed": seed, "j": j, "of": 4, "budget_s": 60})
+        specs.append({"kind": "unmount", "n": 6})
     else:
+        specs.append({"kind": "unmount", "n": 60})
         for j in range(jobs * 2):
             specs.append({"kind": "seqs", "emitter": "inotify", "n": 8000, "seed": seed, "j": j, "budget_s": 700, "enum": True, "of": jobs * 2})
         for j in range(jobs):
@@ -228,6 +272,7 @@ def run_batch(spec):
         ins = apireal.instr_for_pipeline(spec["seed"])
         r = rng_for(spec["seed"], "C06h", spec["j"])
         with ins:
+            pts = sorted(pts, key=lambda t: (0 if t[0].startswith("wdv-call-") else 1, t[0], t[1], str(t[2])))
             for rep in range(spec.get("reps", 1)):
                 for i, pt in enumerate(pts):
                     if i % spec["of"] != spec["j"] or b.expired():
@@ -243,6 +288,11 @@ def run_batch(spec):
                         if out["reached"]:
                             b.add("hold_points_reached", f"{pt[0]}:{pt[1]}:{pt[2]}")
                             b.nontrivial(["hold", list(map(str, pt)), nth, partner, ev])
+    elif k == "unmount":
+        for n in range(spec["n"]):
+            run_unmount(b, led, n % 3)
+    elif k == "unmount1":
+        run_unmount(b, led, spec["variant"])
     elif k == "seq1":
         run_seq(b, spec["emitter"], [tuple(x) for x in spec["seq"]], led, {})
     elif k == "hold1":
